@@ -209,6 +209,9 @@ def run(tier, seed, replay=None):
     for th in ([2, 4, 8, 16] if big else [2, 4, 8]):
         for sd in range(4 if big else 2):
             st.append("stress %s %x %x %x" % (paths[0], th, 400 if big else 150, sd + 1))
+            if len(paths) > 1:
+                # ... and with a second archive opened, searched and closed concurrently (lock order between the handle tables)
+                st.append("stress %s %x %x %x %s" % (paths[0], th, 600 if big else 300, sd + 11, paths[1]))
     sto = C.run_lines(fi, st, shards=min(C.NPROC, len(st)), timeout=1500)
     for c, o in zip(st, sto):
         res.case(c.replace(base, "<dir>"), nontrivial=True)
